@@ -273,6 +273,33 @@ fn generate(rng: &mut Rng, index: u64) -> C08Sc {
                 }
             }
         }
+        // a write fault aimed at one Keep Alive: the frame is accepted only in part and the rest is held back
+        // until the service that is running at that moment completes (the keep-alive future is dropped
+        // mid-write), or for a while
+        _ if index % 8 == 7 && refo.view.first("KeepAlive").is_some() => {
+            let kas: Vec<usize> = refo.view.packets.iter().enumerate().filter(|(_, p)| p.kind == "KeepAlive").map(|(i, _)| i).collect();
+            let ki = *rng.pick(&kas);
+            let off: usize = refo.view.packets[..ki].iter().map(|p| p.len + crate::codec::varint(p.len as i32).len()).sum();
+            // the write call that carries this frame in the reference execution (every write is accepted whole there)
+            let mut acc = 0usize;
+            let mut call = 0usize;
+            for (_, chunk) in &refo.pipe.out {
+                if acc + chunk.len() > off {
+                    break;
+                }
+                acc += chunk.len();
+                call += 1;
+            }
+            for _ in 0..call {
+                sc.wplan.push(WRule::Accept { max: 1_000_000 });
+            }
+            sc.wplan.push(WRule::Accept { max: rng.range(1, 9) as usize });
+            let t_ka = refo.view.packets[ki].t_ns;
+            match events.iter().find(|(_, t)| *t > t_ka && *t - t_ka < MAX_PAUSE - ms(10)) {
+                Some((name, _)) if rng.chance(3, 4) => sc.wplan.push(WRule::PendEvent { name: name.clone(), ns: *rng.pick(&[0u64, 1_000_000]) }),
+                _ => sc.wplan.push(WRule::Pend { ns: ms(rng.range(1, 3000)) }),
+            }
+        }
         // write-acceptance plans (alone or with cuts)
         _ => {
             if rng.chance(1, 2) {
